@@ -1,8 +1,126 @@
 (* Properties/C17.v — DNS records and names decode as a reference decoder;
    merges are monotone.  Only statements, each closed by [exact] of a lemma
    proved in Proofs/DNS*.v. *)
-From PV Require Import Base.Prelude Model.DNSMerge Proofs.DNSMerge.
+From PV Require Import Base.Prelude Base.Slice Model.DNS Model.DNSMerge Model.DNSRecords Model.DNSNbns
+     Spec.RFC1035 Proofs.RFC1035 Proofs.DNS Proofs.DNSMerge Proofs.DNSRecords.
 Open Scope N_scope.
+
+(* ------------------------------------------------------------------ *)
+(* Names: decodeName against the RFC 1035 relation [name_at] (Spec/RFC1035.v).
+   [decodeName name_fuel data off buf 1] is the call every decoder makes;
+   [view data] are the bytes within len(data). *)
+
+(* whatever decodeName returns is the decompression of a name that really is at that offset,
+   joined with dots, and the returned offset is the end of the name field *)
+Theorem C17_name_sound : forall data off buf name next buf',
+  wf data -> bytes_ok (arr data) ->
+  decodeName name_fuel data off buf 1 = Ok (name, next, buf') ->
+  exists labels, name_at (view data) off labels next /\ name = dotted labels.
+Proof. exact name_sound. Qed.
+Print Assumptions C17_name_sound.
+
+(* every name of at most 256 octets on the wire (RFC 1035 allows 255) reached through at most
+   254 compression pointers is decoded, whatever mixture of labels and pointer chains encodes it *)
+Theorem C17_name_complete : forall data d off labels next buf,
+  wf data -> bytes_ok (arr data) ->
+  name_at_d (view data) d off labels next -> (d <= 254)%nat -> (wire_len labels <= 256)%nat ->
+  exists buf', decodeName name_fuel data off buf 1 = Ok (dotted labels, next, buf').
+Proof. exact name_complete. Qed.
+Print Assumptions C17_name_complete.
+
+Theorem C17_name_complete_rfc : forall data d off labels next buf,
+  wf data -> bytes_ok (arr data) ->
+  name_at_d (view data) d off labels next -> (wire_len labels <= 255)%nat -> (d <= 254)%nat ->
+  exists buf', decodeName name_fuel data off buf 1 = Ok (dotted labels, next, buf').
+Proof. exact name_complete_rfc. Qed.
+Print Assumptions C17_name_complete_rfc.
+
+(* both bounds are sharp (documented leniency / limit, not findings): 255 pointers are rejected,
+   256 octets are accepted, 257 rejected *)
+Example C17_name_depth_254_accepted :
+  let data := of_bytes (ptr_chain 254 0) in
+  wf data /\ bytes_okb (arr data) = true /\
+  exists b', decodeName name_fuel data 0 (mkBuf [] [] true) 1 = Ok ([119; 119; 119], 2%nat, b').
+Proof. exact name_depth_254_accepted. Qed.
+Print Assumptions C17_name_depth_254_accepted.
+Example C17_name_depth_255_rejected :
+  let data := of_bytes (ptr_chain 255 0) in
+  ref_decode (view data) 0 = Some ([[119; 119; 119]], 2%nat) /\
+  decodeName name_fuel data 0 (mkBuf [] [] true) 1 = Err EParseFrame.
+Proof. exact name_depth_255_rejected. Qed.
+Print Assumptions C17_name_depth_255_rejected.
+Example C17_name_wire_256_accepted :
+  let data := of_bytes (long_name 62) in
+  match ref_decode (view data) 0 with Some (ls, _) => wire_len ls | None => 0%nat end = 256%nat /\
+  is_ok (decodeName name_fuel data 0 (mkBuf [] [] true) 1) = true.
+Proof. exact name_wire_256_accepted. Qed.
+Print Assumptions C17_name_wire_256_accepted.
+Example C17_name_wire_257_rejected :
+  let data := of_bytes (long_name 63) in
+  match ref_decode (view data) 0 with Some (ls, _) => wire_len ls | None => 0%nat end = 257%nat /\
+  decodeName name_fuel data 0 (mkBuf [] [] true) 1 = Err EParseFrame.
+Proof. exact name_wire_257_rejected. Qed.
+Print Assumptions C17_name_wire_257_rejected.
+Example C17_name_compressed_example :
+  let data := of_bytes (repeat 0 12 ++ [7;101;120;97;109;112;108;101;3;99;111;109;0] ++ [3;119;119;119;192;12]) in
+  exists b', decodeName name_fuel data 25 (mkBuf [] [] true) 1 =
+             Ok ([119;119;119;46;101;120;97;109;112;108;101;46;99;111;109], 31%nat, b').
+Proof. exact name_compressed_example. Qed.
+Print Assumptions C17_name_compressed_example.
+
+(* whatever is not a name is rejected with an error: never a panic, never a hang, never a name *)
+Theorem C17_name_rejects : forall data off buf,
+  wf data -> bytes_ok (arr data) ->
+  (forall labels next, ~ name_at (view data) off labels next) ->
+  exists e, decodeName name_fuel data off buf 1 = Err e.
+Proof. exact name_rejects. Qed.
+Print Assumptions C17_name_rejects.
+
+(* ... and these are not names: a compression loop (the walk over labels and pointers returns to an
+   offset already visited), anything that leads into a non-name, a pointer or label beyond the
+   message, a length octet with top bits 01 / 10 (over-long label), a truncated label or pointer *)
+Theorem C17_loop_is_no_name : forall msg off k, (1 <= k)%nat -> steps msg k off off ->
+  forall ls next, ~ name_at msg off ls next.
+Proof. exact no_name_loop. Qed.
+Print Assumptions C17_loop_is_no_name.
+Theorem C17_leads_into_no_name : forall msg off off' k, steps msg k off off' ->
+  (forall ls next, ~ name_at msg off' ls next) -> forall ls next, ~ name_at msg off ls next.
+Proof. exact no_name_into. Qed.
+Print Assumptions C17_leads_into_no_name.
+Theorem C17_beyond_is_no_name : forall (msg : bytes) off, (length msg <= off)%nat ->
+  forall ls next, ~ name_at msg off ls next.
+Proof. exact no_name_beyond. Qed.
+Print Assumptions C17_beyond_is_no_name.
+Theorem C17_reserved_is_no_name : forall (msg : bytes) off (c : byte),
+  nth_error msg off = Some c -> 64 <= c -> c < 192 -> forall ls next, ~ name_at msg off ls next.
+Proof. exact no_name_reserved. Qed.
+Print Assumptions C17_reserved_is_no_name.
+Theorem C17_truncated_label_is_no_name : forall (msg : bytes) off (c : byte),
+  nth_error msg off = Some c -> 1 <= c -> c <= 63 -> (length msg < off + 1 + N.to_nat c)%nat ->
+  forall ls next, ~ name_at msg off ls next.
+Proof. exact no_name_label_truncated. Qed.
+Print Assumptions C17_truncated_label_is_no_name.
+Theorem C17_truncated_pointer_is_no_name : forall (msg : bytes) off (c : byte),
+  nth_error msg off = Some c -> 192 <= c -> nth_error msg (S off) = None ->
+  forall ls next, ~ name_at msg off ls next.
+Proof. exact no_name_ptr_truncated. Qed.
+Print Assumptions C17_truncated_pointer_is_no_name.
+Example C17_rejected_examples :
+  decodeName name_fuel (of_bytes [192; 0]) 0 (mkBuf [] [] true) 1 = Err EParseFrame /\
+  decodeName name_fuel (of_bytes [1; 97; 192; 4; 1; 98; 192; 0]) 0 (mkBuf [] [] true) 1 = Err EParseFrame /\
+  decodeName name_fuel (of_bytes [1; 97; 64; 0]) 0 (mkBuf [] [] true) 1 = Err EOther /\
+  decodeName name_fuel (of_bytes [5; 97; 98]) 0 (mkBuf [] [] true) 1 = Err EParseFrame.
+Proof.
+  split; [exact name_self_loop_rejected|]. split; [exact name_two_loop_rejected|].
+  split; [exact (proj1 name_reserved_rejected)|exact (proj1 name_truncated_rejected)].
+Qed.
+Print Assumptions C17_rejected_examples.
+
+(* the reference decoder used as the spec column of the correspondence decides [name_at] *)
+Theorem C17_reference_decoder_correct : forall msg off ls next, bytes_ok msg ->
+  ref_decode msg off = Some (ls, next) <-> name_at msg off ls next.
+Proof. exact ref_decode_iff. Qed.
+Print Assumptions C17_reference_decoder_correct.
 
 (* ------------------------------------------------------------------ *)
 (* NameEntry.Merge: the learned attributes are Name, Model, OS, Manufacturer
